@@ -25,6 +25,7 @@ from .frontend import set_parents
 
 MAX_STMTS = 40
 DEPTH = 2
+_COUNTER = [0]
 
 
 def _docstring_free(body):
@@ -103,7 +104,8 @@ def _helper_body(callee, call):
             locals_.add(x.name)
     # a parameter that is re-assigned in the helper becomes a local initialised with the argument
     reassigned = {x.id for x in ast.walk(callee.node) if isinstance(x, ast.Name) and isinstance(x.ctx, ast.Store) and x.id in params}
-    suffix = "__" + callee.name.strip("_")
+    _COUNTER[0] += 1
+    suffix = "__%s_%d" % (callee.name.strip("_"), _COUNTER[0])
     mapping = {n: ast.Name(id=n + suffix, ctx=ast.Load()) for n in locals_ | reassigned}
     pre = []
     for n in sorted(reassigned):
@@ -134,6 +136,7 @@ def inlined(prog, fi, depth=DEPTH, skip=()):
         return cache[key]
     node = clone(fi.node)
     changed = [False]
+    _COUNTER[0] = 0
 
     def resolve(call, stack):
         if not isinstance(call, ast.Call):
